@@ -62,6 +62,11 @@ pub enum Inbound {
         pid: u16,
         target: Target,
         payload_len: u16,
+        /// optional properties: bit 0 payload format indicator = 1 (the payload is binary
+        /// all the same: the client must pass it on), bit 1 = 0, bit 2 message expiry, bit 3
+        /// content type, bit 4 response topic + correlation data, bit 5 empty payload
+        #[serde(default)]
+        props: u8,
     },
     Pubrel { pid: u16, known: bool },
     /// a QoS 0 PUBLISH to the first subscription with a payload of `kib` KiB (remaining
@@ -92,6 +97,10 @@ pub enum Ev {
         /// exactly (always the case under auto_settle)
         #[serde(default)]
         settle: bool,
+        /// with `settle`: only this operation's future and the context are polled before the
+        /// verdict (other woken futures stay unpolled), then everything settles
+        #[serde(default)]
+        solo: bool,
     },
     CloneHandle,
     DropHandle { sel: u16 },
@@ -427,10 +436,10 @@ impl<'a> Sim<'a> {
             // a sweep may legitimately take items that were already buffered in a
             // stream the script had not polled: compare everything except stream items
             let fp2 = self.w.fingerprint();
-            if (fp.0, fp.1, fp.2, fp.5) != (fp2.0, fp2.1, fp2.2, fp2.5) {
+            if (fp.0, fp.1, fp.2, fp.5) != (fp2.0, fp2.1, fp2.2, fp2.5) || (self.cfg.drain_streams && fp.3 != fp2.3) {
                 self.fail(
                     "C16/sweep-at-quiescence-changed-state",
-                    format!("polling non-woken tasks at a quiescent point changed (written, consumed, completions, returned): {fp:?} -> {fp2:?}"),
+                    format!("polling non-woken tasks at a quiescent point changed (written, consumed, completions, stream items, ended streams, returned): {fp:?} -> {fp2:?}"),
                 );
             }
             // whatever the sweep did must not have woken anything that then makes progress
@@ -544,11 +553,17 @@ impl<'a> Sim<'a> {
                 OpKind::Pub0 => {
                     if res != OpRes::Ok {
                         self.fail("C06/qos0-not-ok", format!("QoS 0 publish {i} returned {res:?}"));
-                    } else if !self.tr.on_wire(i) {
-                        self.fail(
-                            "C06/qos0-completed-before-written",
-                            format!("QoS 0 publish {i} completed although its PUBLISH has not been accepted in full by the transport yet"),
-                        );
+                    } else {
+                        // "completes once written": at the moment the future completed, the whole
+                        // PUBLISH must already have been accepted by the transport
+                        let end = self.tr.map.get(i).cloned().flatten().map(|m| self.w.pkts[m.pkt_index].end);
+                        let at_done = self.w.ops[i].done_wire_len.unwrap_or(0);
+                        if end.map(|e| e > at_done).unwrap_or(true) {
+                            self.fail(
+                                "C06/qos0-completed-before-written",
+                                format!("QoS 0 publish {i} completed when the transport had accepted {at_done} bytes; its PUBLISH ends at byte {end:?} of the wire"),
+                            );
+                        }
                     }
                 }
                 _ => match (&m.expected, m.final_step) {
@@ -766,6 +781,7 @@ impl<'a> Sim<'a> {
         pid_sel: u16,
         target: Target,
         payload_len: u16,
+        props: u8,
     ) -> Vec<u8> {
         let subs = self.live_sub_ops();
         let mut ids: Vec<u32> = vec![];
@@ -812,6 +828,11 @@ impl<'a> Sim<'a> {
         let n = self.msg_counter;
         let mut payload = format!("m{n}:").into_bytes();
         payload.extend(crate::gen::make_bytes(payload_len as usize, n as u8));
+        if props & 32 != 0 {
+            payload.clear();
+        } else if props & 1 != 0 {
+            payload.extend([0xff, 0xfe, 0x80]); // not UTF-8, whatever the indicator says
+        }
         let p = rc::Publish {
             dup: dup && qos > 0,
             qos,
@@ -821,6 +842,11 @@ impl<'a> Sim<'a> {
             subscription_ids: ids,
             user_props: vec![("n".into(), format!("{n}"))],
             payload,
+            payload_format: if props & 1 != 0 { Some(true) } else if props & 2 != 0 { Some(false) } else { None },
+            message_expiry: (props & 4 != 0).then_some(n as u32),
+            content_type: (props & 8 != 0).then(|| "text/plain".to_string()),
+            response_topic: (props & 16 != 0).then(|| format!("re/{n}")),
+            correlation_data: (props & 16 != 0).then(|| vec![n as u8, 0, 0xff]),
             ..Default::default()
         };
         // model: acknowledgement expectation
@@ -892,12 +918,12 @@ impl<'a> Sim<'a> {
     fn inbound_bytes(&mut self, inb: &Inbound) -> Option<Vec<u8>> {
         match inb {
             Inbound::Ack { sel, deco } => self.build_ack(*sel, deco).map(|x| x.0),
-            Inbound::Publish { qos, dup, retain, pid, target, payload_len } => {
-                Some(self.build_publish(*qos % 3, *dup, *retain, *pid, *target, *payload_len))
+            Inbound::Publish { qos, dup, retain, pid, target, payload_len, props } => {
+                Some(self.build_publish(*qos % 3, *dup, *retain, *pid, *target, *payload_len, *props))
             }
             Inbound::Pubrel { pid, known } => Some(self.build_pubrel(*pid, *known)),
             Inbound::BigPublish { kib } => {
-                let mut b = self.build_publish(0, false, false, 0, Target::Sub(0), 0);
+                let mut b = self.build_publish(0, false, false, 0, Target::Sub(0), 0, 0);
                 // rebuild with the large payload: decode what build_publish produced, extend
                 let Ok(rc::Packet::Publish(mut p)) = rc::decode_one(&b, rc::Dir::FromServer) else { return Some(b) };
                 p.payload.extend(crate::gen::make_bytes(*kib as usize * 1024, 7));
@@ -974,7 +1000,7 @@ impl<'a> Sim<'a> {
             })
     }
 
-    fn start(&mut self, h: u8, kind: OpKind, settle_now: bool) {
+    fn start(&mut self, h: u8, kind: OpKind, settle_now: bool, solo: bool) {
         let live = self.w.live_handles();
         let Some(k) = idx((h as u16) << 8, live.len()) else {
             self.stats.events_skipped += 1;
@@ -1031,7 +1057,27 @@ impl<'a> Sim<'a> {
         if exact {
             // regime Q: the request is handled now, the quota verdict is exact
             let wire_before = self.w.wire_len();
-            self.settle();
+            if solo && !self.cfg.auto_settle {
+                // serve just this request: its future, then the context (with write credit)
+                self.w.poll_op(i);
+                loop {
+                    self.w.poll_ctx();
+                    if self.w.writer.blocked() {
+                        if let Some(g) = self.cfg.write.stall {
+                            self.w.writer.grant(g.max(1) as usize);
+                            continue;
+                        }
+                    }
+                    if !self.w.ctx_woken() || self.w.total_polls > self.w.poll_budget {
+                        break;
+                    }
+                }
+                self.mark_ctx_polled();
+                self.w.poll_op(i);
+                self.after_activity();
+            } else {
+                self.settle();
+            }
             self.on_completions();
             if self.ctx_dropped || self.w.run_result.is_some() {
                 return;
@@ -1083,8 +1129,8 @@ impl<'a> Sim<'a> {
         self.w.tick();
         self.stats.events_applied += 1;
         match ev {
-            Ev::Start { h, kind, settle } => {
-                self.start(*h, *kind, *settle);
+            Ev::Start { h, kind, settle, solo } => {
+                self.start(*h, *kind, *settle, *solo);
             }
             Ev::CloneHandle => {
                 let live = self.w.live_handles();
